@@ -193,14 +193,18 @@ class C19(runner.Check):
     theorems = ('TM.C19_tags', 'TM.C19_tags_mutable', 'TM.C19_tags_built', 'TM.C19_caller_lists_unchanged', 'TM.C19_error_iff',
                 'TM.C19_volatile_kept', 'TM.C19_flat_veto', 'TM.C19_retry_scoped', 'TM.C19_volatile_fresh', 'TM.C19_volatile_removed',
                 'TM.C19_volatile_history', 'TM.C19_retry_exact', 'TM.C19_retry_unlimited', 'TM.C19_per_model_frame', 'TM.C19_per_model',
-                'TM.C19_feature_free_unchanged', 'TM.C19_flat_trigger', 'TM.C19_polls_pure', 'TM.C19_dynamic_methods_kept')
+                'TM.C19_feature_free_unchanged', 'TM.C19_flat_trigger', 'TM.C19_polls_pure', 'TM.C19_dynamic_methods_kept',
+                'TM.C19_retry_counts_raising_entry')
     rule = ('random decorated machine classes: every subset of {Tags, Error, Volatile, Retry} in random decorator order '
             '(Tags-before-Error excluded: TypeError) x {Machine, LockedMachine, HierarchicalMachine, '
             'LockedHierarchicalMachine} x 2-4 top states (hierarchical: 0-3 children each, optional initial child) x '
             'random feature arguments per state (tags — occasionally one list object shared by several states —, accepted, hook name, volatile class, retries, on_failure as '
             'callable or model method name) x auto_transitions/ignore_invalid_triggers/send_event x 1-3 models x '
             'histories of 3-20 steps with bursts of the same (reflexive) event, triggers during which an on_exit callback of the '
-            'state being left raises (with/without on_exception handler), edits of the public tags lists (assign/append/'
+            'state being left raises (with/without on_exception handler), triggers during which an on_enter callback of '
+            'the entered state raises and the caller carries on, re-entrant self re-entries fired from the state\'s own '
+            'enter callback (flat, unqueued), model.to(<state>) on hierarchical machines, tag names colliding with State '
+            'attributes (final, name, value, timeout) together with final=True/False states, edits of the public tags lists (assign/append/'
             'remove) between triggers, may_<event>()/may_trigger polls and get_triggers reads in between (more often on '
             'Error machines), hierarchical: transitions declared inside a parent state dict; twin stream: final states, '
             'on_final callbacks, model methods on_enter_/on_exit_/on_final_<state>, machine.on_<cb>_<state>(f); non-trivial = at least one completed '
@@ -239,6 +243,16 @@ class C19(runner.Check):
             "the decorated-vs-plain twin covers the dynamic-method conventions (model methods on_enter_/on_exit_/"
             "on_final_<state>, machine.on_<cb>_<state>(f)), final states and on_final callbacks on states without feature "
             "arguments; on Error machines it is judged only when no state is a dead end",
+            "an entry whose on_enter callback raises counts as an attempt (the code counts first); whether it still "
+            "creates the Volatile object is order-dependent and not judged; re-entrant self re-entries are generated "
+            "on flat machines with the probe only (on hierarchical machines a trigger from inside an enter callback "
+            "runs while the engine is half-way, C03's subject)",
+            "an entry that Error rejected may or may not have been counted by Retry (decorator order): the oracle does "
+            "not judge Retry on rejecting dead ends and forgets its count after a rejected entry",
+            "model.to(<state>) can re-enter a dead end from itself; if Retry, placed before Error in the decorator, refuses "
+            "that entry Error never sees it — mirrored by the model, not judged (C19_error_iff's hypothesis hwf)",
+            "on a machine without Tags/Error a state must answer is_<name> as a state of the undecorated class with the "
+            "same final flag does (normally AttributeError)",
             "edits of state.tags follow Python's aliasing: states that were handed one list object and were not declared "
             "accepted share it, so an in-place edit shows in all of them",
         ]
